@@ -652,4 +652,55 @@ theorem stripDim_id (d : Dim) (h : dimInvented d = false) : stripDim d = d := by
   | unk => rfl
   | sym s => simp only [dimInvented] at h; simp [stripDim, h]
 
+/-! ### helper lemmas for the supplements' own rules (Compress, Loop) -/
+
+theorem dimLe_refl (d : Dim) : dimLe d d = true := by simp [dimLe]
+
+theorem zip_all_dimLe_refl : ∀ ds : List Dim, (List.zip ds ds).all (fun p => dimLe p.1 p.2) = true
+  | [] => rfl
+  | d :: ds => by simp [List.zip_cons_cons, List.all_cons, dimLe_refl, zip_all_dimLe_refl ds]
+
+theorem setUnkAt_length : ∀ (ds : List Dim) (i : Nat), (setUnkAt ds i).length = ds.length
+  | [], _ => rfl
+  | _ :: _, 0 => rfl
+  | _ :: ds, i + 1 => by simp [setUnkAt, setUnkAt_length ds i]
+
+theorem loopOverlay_keys : ∀ (ps : List (Option Ty × Option Ty)) (std : List (String × Option Ty)),
+    (loopOverlay ps std).map Prod.fst = std.map Prod.fst
+  | [], std => by simp [loopOverlay]
+  | _ :: _, [] => by simp [loopOverlay]
+  | (some r, some a) :: ps, (k, t) :: std => by simp [loopOverlay, loopOverlay_keys ps std]
+  | (none, _) :: ps, e :: std => by simp [loopOverlay, loopOverlay_keys ps std]
+  | (some _, none) :: ps, e :: std => by simp [loopOverlay, loopOverlay_keys ps std]
+
+theorem loopOverlay_drop : ∀ (ps : List (Option Ty × Option Ty)) (std : List (String × Option Ty)),
+    (loopOverlay ps std).drop ps.length = std.drop ps.length
+  | [], std => by simp [loopOverlay]
+  | _ :: _, [] => by simp [loopOverlay]
+  | (some r, some a) :: ps, (k, t) :: std => by simp [loopOverlay, loopOverlay_drop ps std]
+  | (none, _) :: ps, e :: std => by simp [loopOverlay, loopOverlay_drop ps std]
+  | (some _, none) :: ps, e :: std => by simp [loopOverlay, loopOverlay_drop ps std]
+
+theorem common_dims_sound : ∀ (as rs : List Dim), as.length = rs.length →
+    (List.zip rs ((List.zip as rs).map (fun p => if p.1 = p.2 then p.1 else Dim.unk))).all (fun p => dimLe p.1 p.2) = true
+    ∧ (List.zip as ((List.zip as rs).map (fun p => if p.1 = p.2 then p.1 else Dim.unk))).all (fun p => dimLe p.1 p.2) = true
+  | [], [], _ => ⟨rfl, rfl⟩
+  | a :: as, r :: rs, h => by
+    have ih := common_dims_sound as rs (by simpa using h)
+    have h1 : dimLe r (if a = r then a else Dim.unk) = true := by
+      by_cases hd : a = r
+      · subst hd; simp [dimLe]
+      · simp [dimLe, hd]
+    have h2 : dimLe a (if a = r then a else Dim.unk) = true := by
+      by_cases hd : a = r
+      · subst hd; simp [dimLe]
+      · simp [dimLe, hd]
+    constructor
+    · show (dimLe r (if a = r then a else Dim.unk) && _) = true
+      rw [h1, Bool.true_and]; exact ih.1
+    · show (dimLe a (if a = r then a else Dim.unk) && _) = true
+      rw [h2, Bool.true_and]; exact ih.2
+  | [], _ :: _, h => by simp at h
+  | _ :: _, [], h => by simp at h
+
 end Sing
